@@ -26,6 +26,10 @@ def run(ctx):
     ok_tr = ctx.rs2v(["F64", "F62", "F128"])
     ctx.audit_sources()
     ctx.coq_build("C07")
+    import os
+    for extra in ("C07_f62", "C07_f128"):
+        if os.path.exists(os.path.join(vcheck.COQ, "Props", extra + ".v")):
+            ctx.coq_build(extra)
     if not quick:
         ctx.coqchk("C07")
     # correspondence: generated model (extracted) vs implementation on raw words
